@@ -375,7 +375,7 @@ def count_exprs(node):
     return res
 
 
-def filter_nodes(exprs, filter_func, max_depth=-1):
+def filter_nodes(exprs, filter_func, max_depth=None):
     """Filter s-expressions based on filter_func."""
     assert isinstance(exprs, (Node, list))
     for expr in dfs(exprs, max_depth):
